@@ -320,11 +320,168 @@ func (e *Engine) globalPtr(p *Path, g *ssa.Global) Value {
 	key := "global:" + core.Path(g)
 	o, ok := p.Sinks[key]
 	if !ok {
+		if arr, isArr := g.Type().(*types.Pointer).Elem().Underlying().(*types.Array); isArr {
+			// a package-level table: an array variable filled once by its literal and never written again
+			if lit, ok := e.globalLiteral(p, g, arr.Elem(), arr.Len()); ok {
+				p.Sinks[key] = lit
+				return &Ptr{Obj: lit, Field: -1, Index: -1}
+			}
+		}
 		o = p.newObj(OCell, core.Path(g))
 		o.Cell = e.globalInit(p, g)
 		p.Sinks[key] = o
 	}
+	if o.Kind != OCell {
+		return &Ptr{Obj: o, Field: -1, Index: -1}
+	}
 	return &Ptr{Obj: o, Field: -1, Index: -1}
+}
+
+// globalLiteral builds the object of a package-level array or slice variable whose elements are constants stored by the
+// package initialiser (var t = [...]int{...} / []byte{...}) and that no function of the module writes to afterwards.
+// n < 0: the length is that of the literal (slice).
+func (e *Engine) globalLiteral(p *Path, g *ssa.Global, elem types.Type, n int64) (*Obj, bool) {
+	if g.Pkg == nil || !core.InModule(g.Pkg.Func("init")) {
+		return nil, false
+	}
+	init := g.Pkg.Func("init")
+	// the storage the literal is built in: the global itself (array) or a literal array the slice is taken of
+	var store ssa.Value = g
+	nStores := 0
+	mutated := false
+	for _, m := range g.Pkg.Members {
+		fn, ok := m.(*ssa.Function)
+		if !ok {
+			continue
+		}
+		for _, f := range core.WithClosures(fn) {
+			core.EachInstr(f, func(in ssa.Instruction) {
+				st, ok := in.(*ssa.Store)
+				if !ok {
+					return
+				}
+				if st.Addr == ssa.Value(g) {
+					nStores++
+					if f != init {
+						mutated = true
+					}
+					switch v := st.Val.(type) {
+					case *ssa.Slice:
+						if v.Low == nil && v.High == nil {
+							store = v.X
+						}
+					case *ssa.UnOp:
+						if v.Op == token.MUL {
+							store = v.X
+						}
+					}
+					return
+				}
+				// element writes outside the initialiser, through the global or a copy of the slice read from it
+				if ia, ok := st.Addr.(*ssa.IndexAddr); ok && f != init {
+					base := ia.X
+					if ld, isLd := base.(*ssa.UnOp); isLd && ld.Op == token.MUL {
+						base = ld.X
+					}
+					if base == ssa.Value(g) {
+						mutated = true
+					}
+				}
+			})
+		}
+	}
+	// methods of the package's types may write as well
+	for _, f := range e.P.ModuleFuncs(core.ShortPkg(init)) {
+		if f.Signature.Recv() == nil {
+			continue
+		}
+		core.EachInstr(f, func(in ssa.Instruction) {
+			if st, ok := in.(*ssa.Store); ok {
+				if st.Addr == ssa.Value(g) {
+					mutated = true
+				}
+				if ia, ok := st.Addr.(*ssa.IndexAddr); ok {
+					base := ia.X
+					if ld, isLd := base.(*ssa.UnOp); isLd && ld.Op == token.MUL {
+						base = ld.X
+					}
+					if base == ssa.Value(g) {
+						mutated = true
+					}
+				}
+			}
+		})
+	}
+	if mutated || nStores > 1 {
+		return nil, false
+	}
+	if _, isAlloc := store.(*ssa.Alloc); !isAlloc && store != ssa.Value(g) {
+		return nil, false
+	}
+	vals := map[int64]*ssa.Const{}
+	max := int64(-1)
+	okAll := true
+	core.EachInstr(init, func(in ssa.Instruction) {
+		st, ok := in.(*ssa.Store)
+		if !ok {
+			return
+		}
+		ia, ok := st.Addr.(*ssa.IndexAddr)
+		if !ok || ia.X != store {
+			return
+		}
+		k, isK := core.ConstInt(ia.Index)
+		c, isC := st.Val.(*ssa.Const)
+		if !isK || !isC {
+			okAll = false
+			return
+		}
+		vals[k] = c
+		if k > max {
+			max = k
+		}
+	})
+	if !okAll {
+		return nil, false
+	}
+	if al, isAlloc := store.(*ssa.Alloc); isAlloc {
+		if at, ok := al.Type().(*types.Pointer).Elem().Underlying().(*types.Array); ok {
+			n = at.Len()
+		}
+	}
+	if n < 0 {
+		n = max + 1
+	}
+	if nStores == 0 && len(vals) == 0 {
+		return nil, false // zero-valued variable: nothing says it is a table
+	}
+	var o *Obj
+	if b, ok := elem.Underlying().(*types.Basic); ok && b.Kind() == types.Uint8 {
+		o = p.newObj(OBytes, core.Path(g))
+		for i := int64(0); i < n; i++ {
+			v := NewConst(0, 8, false)
+			if c, ok := vals[i]; ok {
+				if iv, isInt := e.constant(p, c).(*Int); isInt {
+					v = iv
+				}
+			}
+			o.Segs = append(o.Segs, Seg{Byte: v})
+		}
+		return o, true
+	}
+	if _, isBasic := elem.Underlying().(*types.Basic); !isBasic {
+		return nil, false
+	}
+	o = p.newObj(OElems, core.Path(g))
+	o.Type = elem
+	for i := int64(0); i < n; i++ {
+		if c, ok := vals[i]; ok {
+			o.Elems = append(o.Elems, e.constant(p, c))
+		} else {
+			o.Elems = append(o.Elems, e.zero(p, elem))
+		}
+	}
+	return o, true
 }
 
 // globalInit: function-valued globals initialised once by the package initialiser and never
@@ -350,6 +507,21 @@ func (e *Engine) globalInit(p *Path, g *ssa.Global) Value {
 					val = st.Val
 				}
 			})
+		}
+	}
+	if mt, isMap := g.Type().(*types.Pointer).Elem().Underlying().(*types.Map); isMap {
+		if mc := e.globalMapLiteral(p, g, mt); mc != nil {
+			return mc
+		}
+	}
+	if sl, isSlice := g.Type().(*types.Pointer).Elem().Underlying().(*types.Slice); isSlice {
+		if lit, ok := e.globalLiteral(p, g, sl.Elem(), -1); ok {
+			n := int64(len(lit.Segs))
+			if lit.Kind == OElems {
+				n = int64(len(lit.Elems))
+				lit.ElemN = LConst(n)
+			}
+			return &Slice{Obj: lit, Off: LConst(0), Len: LConst(n), Cap: LConst(n)}
 		}
 	}
 	if stores == 1 {
@@ -557,7 +729,38 @@ func (e *Engine) exec(p *Path, fr *Frame, in ssa.Instruction) {
 			out.Vs = append(out.Vs, &TopV{"select recv"})
 		}
 		fr.env[x] = out
-	case *ssa.Range, *ssa.Next, *ssa.Lookup, *ssa.MapUpdate, *ssa.Go:
+	case *ssa.Lookup:
+		// a read-only package-level table written as a map literal with constant integer keys: a lookup with a
+		// constant key is the entry, or the zero value
+		if mc, ok := e.operand(p, fr, x.X).(*MapConst); ok {
+			if k, isInt := e.operand(p, fr, x.Index).(*Int); isInt {
+				if kv, isC := k.Const(); isC {
+					v, found := mc.Entries[kv]
+					if !found {
+						v = e.zero(p, mc.Elem)
+					}
+					if x.CommaOk {
+						b := False
+						if found {
+							b = True
+						}
+						fr.env[x] = &Tuple{Vs: []Value{v, b}}
+					} else {
+						fr.env[x] = v
+					}
+					break
+				}
+			}
+			// a key that is not a constant: some entry or the zero value - never a panic
+			if x.CommaOk {
+				fr.env[x] = &Tuple{Vs: []Value{e.topOf(p, mc.Elem, "table lookup"), &Bool{}}}
+			} else {
+				fr.env[x] = e.topOf(p, mc.Elem, "table lookup")
+			}
+			break
+		}
+		p.abort("unsupported instruction %T in %s", in, core.QualName(fr.fn))
+	case *ssa.Range, *ssa.Next, *ssa.MapUpdate, *ssa.Go:
 		p.abort("unsupported instruction %T in %s", in, core.QualName(fr.fn))
 	default:
 		p.abort("unsupported instruction %T in %s", in, core.QualName(fr.fn))
@@ -990,4 +1193,88 @@ func (e *Engine) CallFn(p *Path, fn *ssa.Function, args []Value) []Value {
 		return []Value{&TopV{"constructor failed"}}
 	}
 	return out
+}
+
+// MapConst is a package-level map variable that is a constant table: filled by the initialiser with constant integer
+// keys and constant values, never written afterwards.
+type MapConst struct {
+	Entries map[int64]Value
+	Elem    types.Type
+}
+
+func (e *Engine) globalMapLiteral(p *Path, g *ssa.Global, mt *types.Map) *MapConst {
+	if g.Pkg == nil {
+		return nil
+	}
+	init := g.Pkg.Func("init")
+	if init == nil || !core.InModule(init) {
+		return nil
+	}
+	if kb, ok := mt.Key().Underlying().(*types.Basic); !ok || kb.Info()&types.IsInteger == 0 {
+		return nil
+	}
+	if _, ok := mt.Elem().Underlying().(*types.Basic); !ok {
+		return nil
+	}
+	// the one store of the map value, in init
+	var mk ssa.Value
+	n := 0
+	for _, f := range e.P.ModuleFuncs(core.ShortPkg(init)) {
+		core.EachInstr(f, func(in ssa.Instruction) {
+			switch x := in.(type) {
+			case *ssa.Store:
+				if x.Addr == ssa.Value(g) {
+					n++
+					mk = x.Val
+					if f != init {
+						n += 100
+					}
+				}
+			case *ssa.MapUpdate:
+				// a write through a read of the global, anywhere outside init
+				if ld, ok := x.Map.(*ssa.UnOp); ok && ld.X == ssa.Value(g) && f != init {
+					n += 100
+				}
+			case *ssa.Call:
+				if b, ok := x.Call.Value.(*ssa.Builtin); ok && b.Name() == "delete" {
+					if ld, ok := x.Call.Args[0].(*ssa.UnOp); ok && ld.X == ssa.Value(g) {
+						n += 100
+					}
+				}
+			}
+		})
+	}
+	core.EachInstr(init, func(in ssa.Instruction) {
+		if st, ok := in.(*ssa.Store); ok && st.Addr == ssa.Value(g) {
+			if n == 0 {
+				n++
+				mk = st.Val
+			}
+		}
+	})
+	if n != 1 || mk == nil {
+		return nil
+	}
+	if _, isMake := mk.(*ssa.MakeMap); !isMake {
+		return nil
+	}
+	mc := &MapConst{Entries: map[int64]Value{}, Elem: mt.Elem()}
+	ok := true
+	core.EachInstr(init, func(in ssa.Instruction) {
+		mu, isMU := in.(*ssa.MapUpdate)
+		if !isMU || mu.Map != mk {
+			return
+		}
+		k, isK := core.ConstInt(mu.Key)
+		c, isC := mu.Value.(*ssa.Const)
+		if !isK || !isC {
+			ok = false
+			return
+		}
+		mc.Entries[k] = e.constant(p, c)
+	})
+	if !ok {
+		return nil
+	}
+	return mc
 }
